@@ -2080,6 +2080,102 @@ TILE_EDGE = (15, 16, 17, 31, 32, 33)
 
 
 # ------------------------------------------------------------------------------------------------------------ C09
+MANT = {4: 24, 8: 53, 16: 64}
+
+
+def rne(fr, bits):
+    """fr rounded to nearest (ties to even) with a mantissa of `bits` bits - what `(a_real)strtold(text)` yields for a value that is
+    exact in long double (magnitudes far from the exponent limits)"""
+    fr = Fraction(fr)
+    if fr == 0:
+        return fr
+    a = abs(fr)
+    sh = bits - 1 - (a.numerator.bit_length() - a.denominator.bit_length())
+    q = a * Fraction(2) ** sh
+    while q >= 1 << bits:
+        sh -= 1
+        q /= 2
+    while q < 1 << (bits - 1):
+        sh += 1
+        q *= 2
+    n = q.numerator // q.denominator
+    r = q - n
+    if r > Fraction(1, 2) or (r == Fraction(1, 2) and n & 1):
+        n += 1
+    v = Fraction(n) / Fraction(2) ** sh
+    return -v if fr < 0 else v
+
+
+def hextok(m, e):
+    """C99 hex-float text of the integer m times 2^e (exact for |m| < 2^64: strtold returns exactly this value)"""
+    return "%s0x%xp%+d" % ("-" if m < 0 else "", abs(m), e)
+
+
+def prec_C09(rng, C9, cases, scale):
+    """Precision cases of the linalg.c kernels (appended to cases); returns the number of cases by class."""
+    count = {}
+
+    def wide():
+        """(text, value): full 64-bit mantissa (top and bottom bit set), magnitude in [1/4, 4), either sign"""
+        m = (1 << 63) | (rng.getrandbits(62) << 1) | 1
+        m = -m if rng.random() < 0.5 else m
+        e = -63 + rng.choice([-2, -1, 0, 0, 1])
+        return hextok(m, e), Fraction(m) * Fraction(2) ** e
+
+    def int60():
+        m = (1 << 59) | (rng.getrandbits(58) << 1) | 1
+        m = -m if rng.random() < 0.5 else m
+        return str(m), Fraction(m)
+
+    def tiny():
+        m = rng.choice([1, -1, 2, -2, 3, -3, 5, -5, 7, -7])
+        return str(m), Fraction(m)
+
+    def add(op, d, gx, gy, tag):
+        d = tuple(d) + (0,) * (3 - len(d))
+        nx, ny, no = C9.sizes(op, d)
+        inplace = op == "T1"
+        X = [gx() for _ in range(nx)]
+        Y = [gy() for _ in range(ny)]
+        O = [gx() for _ in range(no)] if inplace else [(str(v), Fraction(v)) for v in (rng.randint(1000, 9999) for _ in range(no))]
+        line = " ".join([op] + [str(v) for v in d] + [str(nx)] + [t for t, _ in X] + [str(ny)] + [t for t, _ in Y] + [str(no)] + [t for t, _ in O])
+        fn = "a_real_" + op
+        exp = {}
+        for real, bits in MANT.items():
+            Xr, Yr, Or = [rne(v, bits) for _, v in X], [rne(v, bits) for _, v in Y], [rne(v, bits) for _, v in O]
+            val = C9.expected(op, d, Xr, Yr, Or)
+            if op in C9.OPS3:
+                mag = C9.expected(op, d, [abs(v) for v in Xr], [abs(v) for v in Yr], Or)
+                k = {"mulmm": d[1], "mulTm": d[0], "mulmT": d[2], "mulTT": d[1]}[op]
+                # every partial sum, in any order, is an integer multiple of the common unit below 2^64 times it: exact in this format
+                unit = min([Fraction(1)] + [abs(v) / (abs(v).numerator) for v in Xr + Yr if v])
+                fits = all(mg / (unit * unit) < 1 << bits for mg in mag) and all(v.denominator == 1 for v in Xr + Yr)
+                if fits:
+                    e_ = E(fn, val)
+                else:
+                    e_ = P(fn, [S(v, mg, k + 1) for v, mg in zip(val, mag)])
+            else:
+                e_ = E(fn, [Fraction(v) for v in val])
+            exp[real] = e_ + E("a_real_%s (input arrays unchanged)" % op, [1])
+        cases.append(Case(line, fn, exp,
+                          {"routine": fn, "dimensions in parameter order": list(d[:1] if op in C9.OPS1 else d[:2] if op in C9.OPS2 else d),
+                           "X": [t for t, _ in X], "Y": [t for t, _ in Y], "initial contents of the result array": [t for t, _ in O], "class": tag,
+                           "note": "every configuration reads the entries rounded to nearest in its own a_real; the expectation is computed from the values as read"}))
+        count[tag] = count.get(tag, 0) + 1
+
+    reps = 2 * scale
+    for rep in range(reps):
+        for op in C9.OPS3:
+            for d in [(1, 1, 1), (2, 2, 2), (2, 3, 2), (3, 2, 4), (1, 4, 3), (4, 1, 2), (3, 3, 1), (4, 4, 4), (2, 5, 3), (5, 3, 2)]:
+                add(op, d, wide, wide, "precision: products, 64-bit mantissas")
+                add(op, d, int60, tiny, "precision: products, X 60-bit integers, Y at most 3 bits (exact in long double)")
+                add(op, d, tiny, int60, "precision: products, Y 60-bit integers, X at most 3 bits (exact in long double)")
+        for op in C9.MOVE_OPS if hasattr(C9, "MOVE_OPS") else ["T1", "T2", "triL", "triL1", "triL2", "triU", "triU1", "triU2", "diag", "diag1", "diag2"]:
+            for d in ([(2,), (3,), (5,)] if op in C9.OPS1 else [(2, 3), (3, 2), (4, 4), (1, 5)]):
+                add(op, d, wide, wide, "precision: copy / move kernels, 64-bit mantissas, exact copy demanded")
+    return count
+
+
 def gen_C09(rng, scale):
     """Every kernel of src/linalg.c on integer data.  The expectation is checks/C09.py `expected` - the property's own statement of
     each routine on exact integers - imported, not copied.  Contents are small enough that every product and every partial sum of
@@ -2130,7 +2226,17 @@ def gen_C09(rng, scale):
                 for s1, s2 in ((1, 1), (3, 3), (1, 3), (3, 1)):
                     for d in ((big, s1, s2), (s1, big, s2), (s1, s2, big)):
                         add(op, d, "small" if (big + s1 + rep) % 2 else "canon", "tile-edge")
-    return cases, ("C09: all %d kernels of src/linalg.c (%s); every shape with dimensions 0..%d and the tile-edge shapes (one dimension 1 or 3 - "
+    nprec = prec_C09(rng, C9, cases, scale)
+    return cases, ("C09: precision cases (%s): " % nprec +
+                   "entries with full 64-bit mantissas (hex-float text, magnitudes 1/4..4; each configuration reads them rounded to nearest "
+                   "in its own a_real, modelled here, so every build works on full mantissas of its own format): the copy / move kernels (T1, "
+                   "T2, diag*, triL*, triU*) must reproduce the values as read EXACTLY in every configuration; the four products must agree "
+                   "with the exact rational sum of products of the values as read within 2 x (inner dimension + 1) x machine epsilon of the "
+                   "configuration x sum of |products| - a `double` local in the long double build (or a `float` one in the double build) "
+                   "exceeds that by orders of magnitude; a second class gives one operand 60-bit odd integers and the other integers of at "
+                   "most 3 bits (both ways round), so that every product and sum is exact in long double, where exactly the integers are "
+                   "demanded.  "
+                   "C09: all %d kernels of src/linalg.c (%s); every shape with dimensions 0..%d and the tile-edge shapes (one dimension 1 or 3 - "
                    "for the square routines the order itself - the other 15..17 and 31..33): %s; integer contents (-9..9 or distinct "
                    "positive values), stale values in the result array, each array a block of exactly its size with guard bytes "
                    "around it in one allocation per case; expectation = checks/C09.py expected() (the exact integer definition the "
